@@ -183,6 +183,19 @@ def _rk_calls(r, de, m, M, rhs, f, L, t, y, h, tcur, ycur, dtype, shape, implici
             tn = float(np.max(np.abs(m.atol + np.max(np.abs(m.rtol * ycur))))) * 0.5 if implicit else None
             check_rk_state(r, m, M, f, L, tcur, ycur, h, dT, dY, dtype, dict(case, call=2), tol_newton=tn, label=" (call 2, unrelated start)")
             _asked(r, sc, tn, dtype, case, 2)
+            if implicit:
+                # call 3: the tolerances of the SAME object are tightened through its public attributes between two calls; the next step - its first
+                # attempt included - is solved to the tolerances in force now
+                m.rtol = m.rtol * dtype(1e-2); m.atol = m.atol * dtype(1e-2)
+                tcur = val(case["t"], dtype) - dtype(0.25); ycur = (y * dtype(0.75) - dtype(0.125)).astype(dtype); h = dtype(0.5) * val(case["h"], dtype)
+                try:
+                    new_dt, (dT, dY) = m(rhs, tcur, ycur, {}, h)
+                except Exception:
+                    r.add("not_accepted")
+                    break
+                tn = float(np.max(np.abs(m.atol + np.max(np.abs(m.rtol * ycur))))) * 0.5
+                check_rk_state(r, m, M, f, L, tcur, ycur, h, dT, dY, dtype, dict(case, call=3), tol_newton=tn, label=" (call 3, tolerances tightened on the object)")
+                _asked(r, sc, tn, dtype, case, 3)
     # a second object: the right-hand side reads a constant, and the constant CHANGES between a step and its exact continuation (same end point, bitwise):
     # nothing remembered from the first call - an end slope, a first stage - is valid for the second one
     if not implicit and case["rhs"] in ("tanh_net", "linear_t", "logistic") and not isinstance(case["t"], (list, tuple)):
